@@ -91,7 +91,7 @@ void fiber_scheduler_schedule(fiber_scheduler_t* scheduler,
   assert(the_fiber);
   FIBER_VERIF_POINT(FV_SCHEDULE, scheduler, the_fiber);
   wsd_work_stealing_deque_push_bottom(
-      ((fiber_scheduler_wsd_t*)scheduler)->schedule_from, the_fiber);
+      ((fiber_scheduler_wsd_t*)scheduler)->store_to, the_fiber);
   FIBER_VERIF_POINT(FV_SCHEDULED, scheduler, the_fiber);
 }
 
